@@ -538,13 +538,13 @@ Fixpoint last_time (t0 : Z) (h : list (Z * op)) : Z :=
   match h with [] => t0 | (t, _) :: r => last_time t r end.
 
 Lemma Inv_init : Inv linit 0.
-Proof. unfold Inv, linit, hw_target, hw_t1. cbn. repeat split; auto. left. lia. Qed.
+Proof. unfold Inv, linit, hw_target, hw_t1. cbn. repeat split; auto; left; lia. Qed.
 
 Lemma run_inv : forall h l t0, 0 <= t0 -> Inv l t0 -> timed_ok t0 h -> Inv (lrun l h) (last_time t0 h).
 Proof.
   induction h as [|[t o] r IH]; intros l t0 H0 I T; cbn in *; [exact I|].
   destruct T as [T1 T2]. apply IH; [lia | | exact T2].
-  unfold lstep. eapply step_inv; eauto. lia.
+  unfold lstep. eapply step_inv; eauto; lia.
 Qed.
 
 (* at rest: every entry is opaque (all removal fades are over and gone) and no fade is running *)
@@ -570,8 +570,8 @@ Proof.
   intros h now T L l R.
   pose proof (run_inv h linit 0 ltac:(lia) Inv_init T) as (S & A & B). fold l in S, A, B.
   assert (0 <= last_time 0 h).
-  { clear -T. assert (G : forall h t, 0 <= t -> timed_ok t h -> 0 <= last_time t h).
-    { induction h as [|[t o] r IH]; cbn; intros; [assumption|]. apply IH; [lia|tauto]. }
+  { clear -T. assert (G : forall h' t, 0 <= t -> timed_ok t h' -> 0 <= last_time t h').
+    { induction h' as [|[t o] r IH]; cbn; intros; [assumption|]. apply IH; [lia|tauto]. }
     apply G; [lia|exact T]. }
   destruct (rest_target _ _ R) as [C D].
   split; [congruence|]. destruct B; lia.
@@ -580,7 +580,7 @@ Qed.
 (* ------------------------------------------------------------------------------------------ *)
 (* 6. the software / direct fade channel (fixed set_fade) *)
 
-Inductive cev := CSet (sb st tb tt : Z) | CRun.
+Inductive cev := CSet (sb st tb te : Z) | CRun.
 
 (* channel, brightness of the last command, target of the last set_fade *)
 Definition cstate := (chan * option Z * option Z)%type.
@@ -592,7 +592,7 @@ Definition cstep (maxf interval : Z) (s : cstate) (ev : Z * cev) : cstate :=
   let '(c, lb, lt) := s in
   let now := fst ev in
   match snd ev with
-  | CSet sb st tb tt => let '(c', out) := chan_set_fade maxf now c sb st tb tt in (c', last_b lb out, Some tb)
+  | CSet sb st tb te => let '(c', out) := chan_set_fade maxf now c sb st tb te in (c', last_b lb out, Some tb)
   | CRun => let '(c', out) := chan_run maxf interval now c in (c', last_b lb out, lt)
   end.
 
@@ -605,7 +605,7 @@ Definition cinv (s : cstate) : Prop :=
 
 Lemma cstep_inv maxf interval s ev : cinv s -> cinv (cstep maxf interval s ev).
 Proof.
-  destruct s as [[c lb] lt]. destruct ev as [now [sb st tb tt|]]; cbn [cstep fst snd]; intro I.
+  destruct s as [[c lb] lt]. destruct ev as [now [sb st tb te|]]; cbn [cstep fst snd]; intro I.
   - unfold chan_set_fade. destruct (_ >? maxf); cbn; reflexivity.
   - unfold chan_run. destruct c as [k|]; [|exact I].
     destruct (wake k <=? now); [|exact I].
@@ -635,7 +635,7 @@ Definition cstep_orig (maxf interval : Z) (s : cstate) (ev : Z * cev) : cstate :
   let '(c, lb, lt) := s in
   let now := fst ev in
   match snd ev with
-  | CSet sb st tb tt => let '(c', out) := chan_set_fade_orig maxf now c sb st tb tt in (c', last_b lb out, Some tb)
+  | CSet sb st tb te => let '(c', out) := chan_set_fade_orig maxf now c sb st tb te in (c', last_b lb out, Some tb)
   | CRun => let '(c', out) := chan_run maxf interval now c in (c', last_b lb out, lt)
   end.
 
@@ -671,3 +671,40 @@ Lemma color_below_orig_refuted_l :
   exists st p k now, sortedb st = true /\ forallb (below_fixed p k) st = true /\
                      color_below_orig st p k now <> col st now.
 Proof. exists below_witness, 10, 1, 2000. vm_compute. repeat split; congruence. Qed.
+
+(* ------------------------------------------------------------------------------------------ *)
+(* Examples: the hypotheses of the theorems are satisfiable on non-trivial states *)
+
+Definition ex_hist : list (Z * op) :=
+  [(1000, OColor (255, 0, 0) 0 1 2);            (* red, key b, priority 1 *)
+   (1000, OColor (0, 255, 0) 500 5 1);          (* green over it with a fade, key a, priority 5 *)
+   (1250, OColor (0, 0, 255) 0 0 3);            (* lower priority while the fade runs: no update *)
+   (1250, ORemove 1 500);                       (* fade the top entry out mid-fade *)
+   (1750, OFire 1)].                            (* its delay *)
+
+Example ex_hist_ok : timed_ok 0 ex_hist /\ rest (stack (lrun linit ex_hist)) 1750 = true /\
+  length (stack (lrun linit ex_hist)) = 2%nat /\ col (stack (lrun linit ex_hist)) 1750 = (255, 0, 0) /\
+  hw_target (lrun linit ex_hist) = (255, 0, 0).
+Proof. vm_compute. repeat split; try congruence; try reflexivity. Qed.
+
+Definition ex_fading : list entry :=
+  [mkE 5 1 1000 (Some (255, 0, 10)) 1500 (Some (0, 255, 10)); mkE 1 2 900 None 0 (Some (255, 0, 0))].
+
+Example ex_fade_running : t1 (hd (mkE 0 0 0 None 0 None) ex_fading) <> 0 /\ sortedb ex_fading = true /\
+  col ex_fading 1125 = (192, 63, 10) /\ col ex_fading 1500 = (0, 255, 10).
+Proof. vm_compute. repeat split; congruence. Qed.
+
+Example ex_settled : settled ex_fading 1500 = true /\ top_color ex_fading = (0, 255, 10) /\
+  settled ex_fading 1499 = false.
+Proof. vm_compute. auto. Qed.
+
+Example ex_remove : nokey 1 (tl ex_fading) = true /\
+  stack (fst (do_remove (mkL ex_fading None []) 1 0 1200)) = tl ex_fading /\
+  stack (fst (do_fire (fst (do_remove (mkL ex_fading None []) 1 250 1200)) 1 1450)) = tl ex_fading /\
+  length (stack (fst (do_remove (mkL ex_fading None []) 1 250 1200))) = 2%nat.
+Proof. vm_compute. auto. Qed.
+
+Example ex_channel :
+  fold_left (cstep 250 250) [(1000, CSet 0 1000 255 2000); (1000, CRun); (1250, CRun); (1500, CRun); (1750, CRun)]
+            (None, None, None) = (None, Some (255 * SC), Some 255).
+Proof. vm_compute. reflexivity. Qed.
